@@ -232,7 +232,7 @@ func c1DropFuncs(src string) string {
 
 func c1Shrink(src string, budget time.Duration) string {
 	deadline := time.Now().Add(budget)
-	orig := runYaegi(src, yaegiOpts{Timeout: 2 * time.Second})
+	orig := c1RunYaegiChild(src, 2*time.Second)
 	class := c1EndClass(orig)
 	origRegion := c1ClassifyRegion(src)
 	fails := func(cands []string) int {
@@ -244,10 +244,10 @@ func c1Shrink(src string, budget time.Duration) string {
 		impl := make([]outcome, len(cands))
 		done := make(chan struct{})
 		go func() {
-			parallelMap(len(cands), 8, func(i int) { impl[i] = runYaegi(cands[i], yaegiOpts{Timeout: 2 * time.Second}) })
+			parallelMap(len(cands), 8, func(i int) { impl[i] = c1RunYaegiChild(cands[i], 2*time.Second) })
 			close(done)
 		}()
-		ref, err := goRefBatch(progs, 2*time.Second, false)
+		ref, err := c1RefBatch(progs, 2*time.Second)
 		<-done
 		if err != nil {
 			return -1
